@@ -1,6 +1,6 @@
 SPECIFICATION Spec
 CONSTANTS
-  W2Grid = 257
+  W2Grid = 4099
 INVARIANT InvFunction
 INVARIANT InvTotal
 CHECK_DEADLOCK FALSE
